@@ -74,6 +74,31 @@ class _C06(Spec):
                     g.append("byname conv %s gregorian %s julian %d" % (hist, cal, jd))
             sw_groups.append(g)
         sts.append(Stream("byname-switch-sweeps", None, groups=sw_groups))
+        # question P, then question Q, for EVERY ordered pair of the days around a year end and two month ends of
+        # each calendar (found by asking the real code for the dates of 420 consecutive days): an answer kept
+        # from the previous call under a key that two dates share shows only for particular consecutive pairs
+        pair_groups = []
+        base = 2457000 + rng.randrange(0, 3000)
+        for a in names:
+            resp, _ = core.ask(core.ORACLE, ["byname conv M1,A0 %s %s %s %d" % (a, a, a, base + k) for k in range(420)])
+            dates = [r.split(" ")[0].split("/") for r in resp]
+            firsts = [k for k, d in enumerate(dates) if len(d) == 3 and d[2] == "1"]
+            ystart = [k for k in firsts if dates[k][1] == "1"]
+            hot = set()
+            for k in ystart[:1]:
+                hot.update(range(k - 9, k + 9))
+            for k in [f for f in firsts if f not in ystart][:2]:
+                hot.update(range(k - 3, k + 3))
+            hot = sorted(h for h in hot if 0 <= h < 420)
+            g = []
+            others = [n for n in names if n != a]
+            for pk in hot:
+                for qk in hot:
+                    b = others[(pk + qk) % len(others)]
+                    g.append("byname conv M1,A0 %s %s %s %d" % (a, a, b, base + pk))
+                    g.append("byname conv M1,A0 %s %s %s %d" % (a, a, b, base + qk))
+            pair_groups.append(g)
+        sts.append(Stream("byname-pairs", None, groups=pair_groups))
         rreqs = []
         n = 60000 if tier == "quick" else 600000
         for _ in range(n):
